@@ -5,5 +5,5 @@ From Coq Require Import ExtrOcamlBasic.
 From C05 Require Import Model Checker.
 Extraction Language OCaml.
 Cd "ocaml".
-Extraction "model.ml" mk_tables dump_pol2log dump_plus1 op1 op2 op3 arr dot tables_ok.
+Extraction "model.ml" mk_tables dump_pol2log dump_plus1 op1 op2 op3 arr dot tables_ok fg_ok.
 Cd "..".
